@@ -11,7 +11,7 @@ def HasDim (env : List Param) (n : Name) (d : Dim) : Prop :=
 /-- the entry under `n` is an independent Normal random variable (constant parameters) or — for `K` only, whose
 dependence on `P, e` the kernel implements — a FixedCompanionMass -/
 def IsNormal (env : List Param) (n : Name) : Prop :=
-  ∃ par, lookup env n = some par ∧ (par.kind = .normal ∨ (par.kind = .fcm ∧ n = .K))
+  ∃ par, lookup env n = some par ∧ par.registered = true ∧ (par.kind = .normal ∨ (par.kind = .fcm ∧ n = .K))
 
 /-- the property's notion of a prior that satisfies the sampler's assumptions -/
 def WellFormed (i : PriorInput) : Prop :=
@@ -31,7 +31,7 @@ theorem checkPresence_ok_iff (env : List Param) : ∀ req : List (Name × Dim),
     cases hl : lookup env n with
     | none => simp [HasDim, hl]
     | some par =>
-      obtain ⟨nm, un, k, nd⟩ := par
+      obtain ⟨nm, un, k, nd, rg⟩ := par
       cases un with
       | none => simp [HasDim, hl]
       | some u =>
@@ -78,34 +78,41 @@ theorem checkLinear_ok_iff (env : List Param) : ∀ names : List Name,
     cases hl : lookup env n with
     | none => simp [IsNormal, hl]
     | some par =>
-      obtain ⟨nm, un, k, nd⟩ := par
+      obtain ⟨nm, un, k, nd, rg⟩ := par
       cases k with
       | normal =>
         simp only []
-        rw [ih]
-        constructor
-        · intro h; exact ⟨⟨_, hl, by simp⟩, h⟩
-        · intro h; exact h.2
+        by_cases hr : rg = true
+        · rw [if_pos hr, ih]
+          constructor
+          · intro h; exact ⟨⟨_, hl, hr, by simp⟩, h⟩
+          · intro h; exact h.2
+        · rw [if_neg hr]
+          constructor
+          · intro h; cases h
+          · rintro ⟨⟨par', hl', hr', _⟩, _⟩
+            rw [hl] at hl'; cases hl'
+            exact absurd hr' hr
       | fcm =>
         simp only []
-        by_cases hK : n = .K
+        by_cases hK : n = .K ∧ rg = true
         · rw [if_pos hK, ih]
           constructor
-          · intro h; exact ⟨⟨_, hl, Or.inr ⟨rfl, hK⟩⟩, h⟩
+          · intro h; exact ⟨⟨_, hl, hK.2, Or.inr ⟨rfl, hK.1⟩⟩, h⟩
           · intro h; exact h.2
         · rw [if_neg hK]
           constructor
           · intro h; cases h
-          · rintro ⟨⟨par', hl', hk'⟩, _⟩
+          · rintro ⟨⟨par', hl', hr', hk'⟩, _⟩
             rw [hl] at hl'; cases hl'
             rcases hk' with h | ⟨_, h⟩
             · cases h
-            · exact absurd h hK
+            · exact absurd ⟨h, hr'⟩ hK
       | normalDep | otherRV | unnamedOp | noOwner | notTensor =>
         simp only []
         constructor
         · intro h; cases h
-        · rintro ⟨⟨par', hl', hk'⟩, _⟩
+        · rintro ⟨⟨par', hl', _, hk'⟩, _⟩
           rw [hl] at hl'; cases hl'
           rcases hk' with h | ⟨h, _⟩ <;> cases h
 
